@@ -18,7 +18,7 @@ CHECKS = {
          "CompactSize encoder equals the specification; the pre-fix one differs exactly at 0xffff and 0xffffffff (F01, found by this check, fixed). "
          "The executable model is compared with the real functions exhaustively on n <= 70000, all boundaries, all script numbers in +-2^16, all "
          "1/2-byte number strings, all push lengths <= 600 and on random command lists / byte strings. Script.parse's nested-script and whole-blob "
-         "heuristics are outside the proved fragment and are listed findings (F04a/F04b) delimited by decidable predicates."),
+         "heuristics are outside the proved fragment and are listed findings (F04a/F04b) delimited by decidable predicates. Every script is also read through Script.parse (bytes and hexadecimal text) and parse_hex, numbers in script text and sums of scripts are included. Found and fixed: F01, F58 (Script.parse passed wrong length hints), F71 (numbers in script text were CompactSize integers), F72 (as_bytes of a sum of scripts)."),
    design_ref='DESIGN.md §5 C18',
    note=COMMON_NOTE + "Modelled rather than verified: Script.parse_bytesio's signature/key object construction and script-type detection."),
  'C11': dict(
@@ -31,7 +31,7 @@ CHECKS = {
          "always rejected for the same constant). BIP173/350 vectors are evaluated in the kernel. The executable model (with the generated "
          "network table) is compared with addr_base58_to_pubkeyhash, deserialize_address, Address.parse, addr_bech32_to_pubkeyhash, Key(wif), "
          "HDKey(xkey), HDKey.from_wif on EVERY single substitution/insertion/deletion/transposition of sampled valid strings of every class and "
-         "network, plus random damage, case changes, truncation and padding. Found and fixed through this check: F05, F06, F27, F28. Every (witness version, program length 1..41, 64, 65) with a valid checksum and the q-insertion strings are swept. Listed: F47 (encoder mistakes some unusual-length programs for scripts)."),
+         "network, plus random damage, case changes, truncation and padding. Strings with a CORRECT checksum over a payload that is not one of the class (wrong length, wrong compression flag, key field contradicting the version, unknown version) are generated for addresses, WIFs and extended keys. Found and fixed through this check: F05, F06, F27, F28, F69 (WIF payload of any length accepted), F70 (xprv carrying a public key accepted). Every (witness version, program length 1..41, 64, 65) with a valid checksum and the q-insertion strings are swept. Listed: F47 (encoder mistakes some unusual-length programs for scripts)."),
    design_ref='DESIGN.md §5 C11',
    note=COMMON_NOTE + "Cryptographic residue (not a theorem): a corrupted Base58Check string is rejected unless the 4-byte SHA-256d checksums collide (2^-32). "
         "convertbits round trip and HRP-character substitutions are covered by the correspondence run only. A refusal of a string the Spec would accept "
@@ -70,7 +70,7 @@ CHECKS = {
          "nonce as fastecdsa derives it from sha256 of the ASCII-hex digest, low-S, strict DER): for every generated (key, digest[, nonce]) - incl. "
          "digests crafted so that s hits n/2, n/2+1, 2^255-1, 2^255, 2^255+1, n-1 - r, s, DER bytes and nonce must be identical; every signature is "
          "verified by the independent Lean secp256k1 verifier and re-decoded by a strict BIP66 decoder; library-derived nonces are pairwise distinct; "
-         "the library verifier must answer exactly like the standard verifier on r,s in {0,1,n-1,n,n+1,2^256-1,+n}, high-S twins, wrong keys, digest +-1."),
+         "the library verifier must answer exactly like the standard verifier on r,s in {0,1,n-1,n,n+1,2^256-1,+n}, high-S twins, wrong keys, digest +-1; the digest as bytes / lower-case / upper-case hexadecimal and the public key as object / bytes / hexadecimal text are one message and one key; der_encode_sig / convert_der_sig are compared with the model on structured (r, s). Found and fixed: F10, F63 (nonce depended on the case of the digest text), F64 (public key as text not accepted)."),
    design_ref='DESIGN.md §5 C13',
    note=COMMON_NOTE + "Hypotheses, not theorems: secp256k1's points form a cyclic group of prime order n with x(-R) = x(R); HMAC-SHA256 collision resistance for "
         "'nonce never shared'. Curve arithmetic, SHA-256, HMAC in the driver are reference code validated by vectors and by agreement with fastecdsa. "
@@ -83,7 +83,7 @@ CHECKS = {
          "p1++p2 then neutering equals private along p1, neutering, public along p2 (induction, unbounded depth); depth bookkeeping; the five spellings of the hardened marker after any digits denote the same child number, the number plus 2^31, and numbers from 2^31 on cannot be hardened (on the executable path-item parser). The driver contains "
          "an independent BIP32 (HMAC-SHA512, secp256k1, HASH160 reference code; BIP32 vector chains) compared with HDKey.from_seed/subkey_for_path/"
          "child_private/child_public on seeds of 16..64 bytes, depths to 8 (20), boundary indices, all five hardened spellings, m/ and M/ prefixes, every "
-         "split point with the public part re-imported from its xpub string. Found and fixed through this check: F08."),
+         "split point with the public part re-imported from its xpub string. The bare prefixes m and M are asked of master and derived keys. Found and fixed through this check: F08, F59 (the path M returned the private key)."),
    design_ref='DESIGN.md §5 C03',
    note=COMMON_NOTE + "The error branches of BIP32 (I_L >= n, child key 0 / point at infinity) are in the executable model but outside the algebraic theorems; "
         "they have probability < 2^-127 and are not reachable by search."),
@@ -108,7 +108,7 @@ CHECKS = {
          "both private and public (decide over all pairs), the mainnet versions are the published BIP32/SLIP-132 ones, and the only mainnet ambiguity "
          "is single/multisig under the legacy versions. The harness exports every key (forced first/last bytes, leading zeros) in every representation "
          "and imports it back, compares WIF / extended-key strings with the Lean encoders and imported fields + metadata with the Lean decoders and "
-         "the candidate sets of the table. Found and fixed: F21 (and F06, F27 under C11)."),
+         "the candidate sets of the table. Decimal text, HD objects made from uncompressed keys, public keys whose text ends like a format marker, and exports before and after a network change of the object are included. Found and fixed: F21, F61 (78-digit decimal keys refused), F62 (xpub of an uncompressed HD object), F70 (under C11)."),
    design_ref='DESIGN.md §5 C12',
    note=COMMON_NOTE + "hex/bytes 'secret+01' forms that start with 02/03/04 are classified public by construction (not self-describing; counted, not claimed). BIP38 export/import is covered under C15."),
  'C05': dict(
@@ -118,7 +118,7 @@ CHECKS = {
          "witness version is committed by the script; with the C11 codec theorems this makes address <-> script mutually inverse. The model (with "
          "the generated network table) is compared with Output(address=...), Address objects, Transaction.add_output, Output(lock_script=...).address "
          "on every network, both encodings, versions 0..16, program lengths 2..40, payloads that look like hex text or whitespace, and every address "
-         "is also offered to other networks (must be refused unless the library's own table cannot distinguish them). Found and fixed: F15, F31b, F31c."),
+         "is also offered to other networks (must be refused unless the library's own table cannot distinguish them). The generic encoders and converters (pubkeyhash_to_addr, addr_convert in both directions and across witness versions) are compared with independent reference encoders. Found and fixed: F15, F31b, F31c, F60 (addr_convert dropped the witness version)."),
    design_ref='DESIGN.md §5 C05',
    note=COMMON_NOTE + "For outputs built from a bare public key or hash the script type is the library's default; the check demands only that the script commits to that key's hash. "
         "Witness programs without a standard type name (v>=2, v1 with non-32-byte program) are compared by address only."),
@@ -161,7 +161,7 @@ CHECKS = {
          "Bech32 8->5->8 round trip used under C11. Word lists enter as hypotheses and are compared entry by entry (9 x 2048) with a frozen "
          "reference copy on every run. The model (SHA-256, PBKDF2-HMAC-SHA512 reference code) is compared with Mnemonic.to_mnemonic / to_entropy / "
          "to_seed in all nine languages on structured entropies, ASCII and NFKD-sensitive unicode passphrases and single-word substitutions "
-         "(accepted iff the checksum still matches, with exactly the model's entropy). Found and fixed: F18."),
+         "(accepted iff the checksum still matches, with exactly the model's entropy). Language detection and sanitising are checked on every generated sentence. Found and fixed: F18."),
    design_ref='DESIGN.md §5 C14',
    note=COMMON_NOTE + "Unicode NFKD is Python's unicodedata on both sides. The default check_on_curve=True guard (entropy must be in (0, n)) is a documented parameter: verified to be exactly that guard and counted."),
  'C20': dict(
@@ -200,7 +200,7 @@ CHECKS = {
          "key for every private version) is reachable, compares the tainted sets of the private object and of its public() view with the model, "
          "and scans pickle, deepcopy + attribute walk, repr, str, as_dict, as_json, info() output, wif_public of the public view, the default "
          "exports of private objects, wallets (repr of keys, as_dict/as_json/info, public_master, watch-only wallets) and the sqlite file written "
-         "with DB_FIELD_ENCRYPTION_KEY set. Found and fixed: F12, F22."),
+         "with field encryption switched on by key, by password and by both. Found and fixed: F12, F22."),
    design_ref='DESIGN.md §5 C16',
    note=COMMON_NOTE + "The object walk enumerates what Python exposes (__dict__ of bitcoinlib objects, containers, pickle bytes); it is not a proof about the interpreter. "
         "info(), wif(), as_dict(include_private=True) of a PRIVATE object are explicit private exports, not public views."),
@@ -214,7 +214,7 @@ CHECKS = {
          "with Key.encrypt / bip38_decrypt / Key(import) on structured keys (edge scalars, both flags, several networks, unicode NFC-sensitive "
          "passphrases), wrong passphrases, corrupted strings incl. the checksum tail, histories that change the key's address encoding before "
          "encrypting, the BIP38 vectors incl. EC-multiplied ones (decrypt side) and successive bip38_create_new_encrypted_wif calls (distinct "
-         "keys). Found and fixed: F11, F20, F07, F37."),
+         "keys). EC-multiplied keys are generated from seeds and salts with leading / inner / trailing zero bytes, on several networks, with lot / sequence incl. sequence 0, and opened with the passphrase in the other unicode normal form; HD key objects of every witness type must encrypt like plain keys. Found and fixed: F11, F20, F07, F37, F65 (HDKey.encrypt hashed the bech32 address), F66 (EC mode: passphrase not normalised on decryption), F67 (EC mode on other networks never decrypted), F68 (sequence 0 refused)."),
    design_ref='DESIGN.md §5 C15',
    note=COMMON_NOTE + "AES-256 and scrypt are reference code / hashlib, not proved; the EC-multiplied mode is covered by correspondence (vectors, generate-then-decrypt), not by theorems."),
  'C08': dict(
